@@ -85,7 +85,7 @@ prop("C08", "proof", "Wrap as a derived machine of the parser model; ReadFrom ch
 prop("C09", "proof", "suffix.Sort is certified per input against the Lean specification saSpec (sorted permutation, proved unique); LCP (Kasai) and InvertSA are modelled exactly and proved correct in Lean",
      "Lean 4 proof (Kasai, InvertSA) + per-input certification of Sort against a verified specification",
      [S("s-suffix", 300, 5000, ["s.sort", "s.lcp", "s.sort.long"]), S("s-exhaustive", 256, 2048, ["s.sort"]),
-      S("s-budget", 400, 8000, ["s.budget.fail", "s.budget.partialcopy"])],
+      S("s-budget", 400, 8000, ["s.budget.fail", "s.budget.partialcopy"]), S("s-large", 12, 400, ["s.sort.large"])],
      "DivSufSort internals are not modelled; forced thresholds 1..3 via the verif hook", GEN_RULE, "§8 C09")
 prop("C10", "proof", "scanLCP modelled as the exact stack machine; soundness, completeness/uniqueness and children-first proved in Lean; arbitrary LCP profiles and real texts compared incl. callback order",
      "Lean 4 invariant proof of the stack machine + differential correspondence",
@@ -102,11 +102,11 @@ prop("C12", "proof", "rank-neighbour maximality (sandwich lemma) proved in Lean;
 prop("C13", "proof", "Reset clears every search structure in the model (tied by correspondence on post-Reset behaviour and twin comparison with a fresh parser); no shared mutable state is a decide-d fact over the regenerated package variables",
      "Lean 4 facts over regenerated source data + twin-parser differential runs",
      [S("p-reset", 300, 5000, ["p.twin.fresh", "p.twin.blocks"]), S("p-reset-stale", 300, 5000, ["p.twin.fresh", "p.twin.blocks"]),
-      S("p-reset-sa", 60, 1200, ["p.twin.fresh", "p.twin.blocks"]), S("p-large", 4, 80, ["p.parse.matches", "p.match.offset>=64K"], hang="120s")],
+      S("p-reset-sa", 60, 1200, ["p.twin.fresh", "p.twin.blocks"]), S("p-reset-bigtable", 4, 100, ["p.twin.fresh", "p.twin.blocks"]), S("p-large", 4, 80, ["p.parse.matches", "p.match.offset>=64K"], hang="120s")],
      "schedules clause reduced to the absence of package-level mutable state (syntactic criteria of the extractor)", GEN_RULE, "§8 C13")
 prop("C14", "proof", "Parse(nil) accounting and drain theorem in Lean; generator with raised Parse(nil) weight; later blocks checked against a decoder that got the skipped bytes verbatim",
      "Lean 4 proof + differential correspondence",
-     [S("p-nil", 300, 5000, ["p.parsenil.data", "p.parse.matches"]), S("p-bigbuf", 8, 200, ["p.bigbuf"])],
+     [S("p-nil", 300, 5000, ["p.parsenil.data", "p.parse.matches"]), S("p-bigbuf", 8, 200, ["p.bigbuf"]), S("p-large", 4, 80, ["p.large.giant"], hang="120s")],
      "as C01", GEN_RULE, "§8 C14")
 prop("C15", "proof", "refinement of ParserBuffer to (fed, Off) with the 7-byte margin invariant; probes at Off-1, Off, Off+len-1, Off+len, Off+len+1; readers with short reads and errors; Reset(data) with every capacity class",
      "Lean 4 refinement proof + differential correspondence",
